@@ -1620,10 +1620,26 @@ impl UdpListenerSession {
             .flow_endpoints
             .remove(&flow)
             .unwrap_or((self.address, None));
-        // Drop the shadow flow-table entry if it still points at this flow.
+        // Drop the shadow flow-table entry if it still points at this flow. The
+        // entry was keyed under the affinity mode in force when the upstream was
+        // opened, and a later cluster update may have flipped that mode: try the
+        // current mode's key first, then the other mode's (mirrors the two-key
+        // lookup of `UdpManager::close_flow`). Otherwise the entry is left
+        // behind forever (and the debug assertion below aborts a debug build).
         let key = self.client_key(client);
         if self.client_key_to_flow.get(&key) == Some(&flow) {
             self.client_key_to_flow.remove(&key);
+        } else {
+            let other = if key == client {
+                let mut k = client;
+                k.set_port(0);
+                k
+            } else {
+                client
+            };
+            if self.client_key_to_flow.get(&other) == Some(&flow) {
+                self.client_key_to_flow.remove(&other);
+            }
         }
         // The shadow flow-table must no longer map THIS flow id. A surviving
         // entry would misroute a later established-flow `SendToBackend` onto a
